@@ -18,8 +18,8 @@ from framework import LEAN, pmap, write_if_changed
 THEOREMS = ['Pfst.C09b.' + t for t in (
     'need_pars_covers_table', 'need_pars_covers_table_starred', 'atom_never_table', 'atom_skip_sound', 'atom_table_free',
     'atom_prec_free', 'atom_int_only_attribute_value', 'needed_kept', 'needed_kept_core', 'needed_enclosed',
-    'needed_enclosed_core', 'action_total', 'enclosedOrLine_sound', 'enclosedOrLine_sound_str_partial',
-    'enclosedOrLine_str_false', 'enc_table_sound', 'encWalk_true', 'encStep_true')]
+    'needed_enclosed_core', 'action_total', 'enclosedOrLine_sound', 'enclosedOrLine_sound_str',
+    'enc_table_sound', 'encWalk_true', 'encStep_true')]
 TRUSTED = [
     'modelled (Pfst/NeedPars.lean, kind sets / enclosure table regenerated into Pfst/Gen/Enclose.lean): FST._is_atom, '
     'FST._is_enclosed_in_parents, FST._is_enclosed_or_line (whole=False; out_lns variant included), need_pars(adding) and the '
@@ -48,7 +48,7 @@ LEVEL_NOTE = ('The put-time decision logic (atom test, enclosure by parents, enc
               'domain, on every node of corpus programs and, instrumented at run time, on every real replace of the slot x '
               'child x layout x form x pars-option space; theorems: the decision covers the table for non-atoms, the table '
               'never wants parentheses around atoms, needed parentheses are kept / added, the line-structure answer is sound '
-              'outside string literals and provably unsound for implicitly concatenated strings (finding C09-F1).')
+              'for every node kind, string literals included since /repo 48b6578 (finding C09-F1, fixed).')
 
 # ---------------------------------------------------------------------------------------------------------------------
 # extraction
@@ -354,6 +354,10 @@ EXTRA_SNIPPETS = [
     'x = a[b,\n      c] \\\n    [d]\n',
     'x = ("s"  # c \\\n     "t")\n',
     'x = ("s" \\\n     "t")\n',
+    'x = "s" \\\n    "t"\n',
+    'x = "#" "s" \\\n    "t"\n',
+    'y["#"] = "s" \\\n    "t" \\\n  "#" \\\n "u"\n',
+    'x = f"{a}" \\\n    f"#{b}" \\\n  "c"\n',
     'x = """a\nb\nc"""\n',
     'x = """a\nb""" \\\n    "c"\n',
     'x = ("""a\nb"""\n     "c")\n',
@@ -436,7 +440,7 @@ def _slexc_list(root):
 
 
 def _sl_outside(d):
-    """hypothesis of `enclosedOrLine_sound_str_partial`: tokenize's continuation lines lie in (ln, end_ln]"""
+    """hypothesis of `enclosedOrLine_sound_str`: tokenize's continuation lines lie in (ln, end_ln]"""
     bad = []
     if 'sl' in d and 'loc' in d and any(not (d['loc'][0] < x <= d['loc'][2]) for x in d['sl']):
         bad.append((d['k'], d['loc'], d['sl']))
@@ -486,7 +490,7 @@ def corr_trees(ctx):
     ws = [w for w in ws if 'error' not in w]
     slbad = [(w['src'], w['slbad']) for w in ws if w['slbad']]
     if slbad:
-        ctx.brk('correspondence', 'tokenize continuation lines outside the node (hypothesis of enclosedOrLine_sound_str_partial)',
+        ctx.brk('correspondence', 'tokenize continuation lines outside the node (hypothesis of enclosedOrLine_sound_str)',
                 f'{len(slbad)} programs; first: {slbad[0]}')
     try:
         outs = ctx.lean([w['case'] for w in ws])
@@ -855,7 +859,7 @@ def action_jobs(ctx, full):
     return jobs
 
 
-# always run (also in the quick tier): the combinations behind listed findings, so that they are reported on every run
+# always run (also in the quick tier): the combinations behind listed findings (C09-F1, fixed in /repo 48b6578: must pass)
 ALWAYS = [(('Assign', 'value'), 'ImplicitStr3', 'comment_bs', 'src', 'auto', False),
           (('Assign', 'value'), 'FStr3', 'comment_bs', 'src', 'auto', False),
           (('Add', 'right'), 'ImplicitStr3', 'comment_bs', 'fst', 'auto', True)]
